@@ -423,7 +423,7 @@ def c19_slices(tier):
     sl = []
     sl.append(dict(name="A_positions_kinds", module="C19", invariants=C19_INV, timeout=3000, consts=consts(
         7 if th else 5, Keys="{2,3}", NonceChoices="{3}", MaxItems="3", Kinds='{"ok","z","R","msg","key"}',
-        Blinders=ZQ(7) if th else "{1,4}", DomH2="{1,2}", EMIT="TRUE")))
+        Blinders=ZQ(7) if th else "{1,4}", DomH2="{1,2}" if th else "{2}", EMIT="TRUE")))
     # complementary +d / -d pairs under every pair of blinders (accepted exactly when the blinders repeat)
     sl.append(dict(name="C_cancelling_pairs", module="C19", invariants=C19_INV, consts=consts(
         7, Keys="{2}", NonceChoices="{3}", MaxItems="2", Kinds='{"z","R"}', Blinders=ZQ(7), DomH2="{2}", EMIT="TRUE")))
